@@ -143,6 +143,10 @@ int cmd_gstrf(const case_t *c)
         long nsuper = 0, maxsup = 0;
         int vbad = info == 0 ? validate_LU(&L, &U, perm_r, opt.perm_c, n, "C09", &nsuper, &maxsup) : walk_LU(&L, &U, n, "C06|factors");
         jo_int("nsuper", nsuper); jo_int("maxsup", maxsup);
+        /* the per-thread work arrays (TriTmp | MatvecTmp strips of maxsuper + rowblk entries, SPA panels) are laid out for
+           supernodes of at most sp_ienv(3) columns; with relax <= sp_ienv(3) no returned supernode may be wider */
+        if (info == 0 && hx_ienv[2] <= hx_ienv[3] && maxsup > hx_ienv[3])
+            jo_fail("C05|supernode-wider-than-maxsuper", "a supernode of %ld columns was formed although sp_ienv(3) = %ld (relax = %ld): the work-array layout assumes at most sp_ienv(3)", maxsup, (long)hx_ienv[3], (long)hx_ienv[2]);
         if (vbad && info == 0) jo_fail("C02|factors-malformed", "info = 0 but the returned L/U/permutations are not well-formed (%d structural defects): no factorization to check", vbad);
         int_t *ff = vbad ? NULL : final_first(&L, n);
         mon_analyze(ev, nev, n, opt.etree, ff, nprocs, &st);
@@ -270,6 +274,10 @@ int cmd_gssv(const case_t *c)
         long nsuper = 0, maxsup = 0;
         int vbad = validate_LU(&L, &U, perm_r, perm_c, n, "C09", &nsuper, &maxsup);
         jo_int("nsuper", nsuper); jo_int("maxsup", maxsup);
+        /* the per-thread work arrays (TriTmp | MatvecTmp strips of maxsuper + rowblk entries, SPA panels) are laid out for
+           supernodes of at most sp_ienv(3) columns; with relax <= sp_ienv(3) no returned supernode may be wider */
+        if (info == 0 && hx_ienv[2] <= hx_ienv[3] && maxsup > hx_ienv[3])
+            jo_fail("C05|supernode-wider-than-maxsuper", "a supernode of %ld columns was formed although sp_ienv(3) = %ld (relax = %ld): the work-array layout assumes at most sp_ienv(3)", maxsup, (long)hx_ienv[3], (long)hx_ienv[2]);
         if (vbad) {
             jo_fail("C02|factors-malformed", "info = 0 but the returned L/U/permutations are not well-formed (%d structural defects)", vbad);
             jo_fail("C01|factors-malformed", "info = 0 but the returned factors are not well-formed: the residual bound cannot be evaluated");
